@@ -21,7 +21,7 @@ def run_content(chk, reps=1):
         v = vlib.classify_panic(t2["out"])
         if v:
             return dict(scenarios=0, distinct=0, samples=[], violations=[v])
-        raise vlib.MachineryError("wire content driver failed:\n" + t2["out"][-3500:])
+        raise vlib.driver_failed("wire content driver failed", t2["out"])
     return json.load(open(resf))
 
 
